@@ -17,6 +17,10 @@ struct Family {
     len_quick: usize,
     len_thorough: usize,
 }
+/// families whose texts are also parsed with a second operator factory (same operators in
+/// reverse table order) on the same thread just before: the tokenizer must not carry anything
+/// over from one factory to the next
+const TWIN_FAMILIES: [&str; 3] = ["c-symbolic-prefixes(<,<=,<<,==,=)", "j-symbolic-binary-prefix-of-unary(+, ++, +-)", "b-log-log2-log10"];
 
 fn families() -> Vec<Family> {
     vec![
@@ -266,7 +270,13 @@ pub fn run(tier: Tier) -> i32 {
         let sw = Sweep { name: f.name, tokens: f.chars.clone(), max_len: l, table: f.table.clone(), sep: "" };
         let table = f.table.clone();
         let name = f.name;
+        let twin: Option<Arc<Table>> = if TWIN_FAMILIES.contains(&name) { Some(Table::new(table.ops.iter().rev().cloned().collect())) } else { None };
         sweep_strings(&sw, &mut rep, &|text, _i, acc| {
+            if let Some(tw) = &twin {
+                set_table_n(1, tw);
+                let _ = guard(|| exmex::FlatEx::<Sym, CfgOps<1>, SymMatcher>::parse(text).is_ok());
+                acc.transitions += 1;
+            }
             judge_sym(text, &table, acc, name);
             if acc.evaluations % 100003 == 7 {
                 acc.sample(json!({"family": name, "text": text, "reference": format!("{:?}", spec::read(text, &table, LitKind::Sym))}));
